@@ -309,7 +309,9 @@ func replacementImplRTL(data *syntax.ReplacerData, al *[]string, m *Match) {
 	l := *al
 	buf := &bytes.Buffer{}
 
-	for _, r := range data.Rules {
+	// the list is written out back to front, so the pieces go in last to first
+	for i := len(data.Rules) - 1; i >= 0; i-- {
+		r := data.Rules[i]
 		buf.Reset()
 		if r >= 0 { // string lookup
 			l = append(l, data.Strings[r])
